@@ -52,7 +52,7 @@ BGS = [
     None,
     lambda n: M.background(n, []),
     lambda n: M.background(n, [S(n + '1')]),
-    lambda n: M.background(n, [S(n + '1', arg=ARGS[1]()), S(n + '2', role='and', arg=ARGS[5]())]),
+    lambda n: M.background(n, [S(n + '1 <a>', arg=M.table([['<a>', '<b>'], ['c', 'd']])), S(n + '2', role='and', arg=M.doc(['x <a>', '<b>'], delimiter='```', media='m<a>'))]),
 ]
 
 
